@@ -37,6 +37,7 @@ M = [
  ("tokens_newline_kept_out", "src/helpers.rs", "      if c == '\\n' {\n        self.index += 1;\n      }\n", "", {"C17": "V"}),
  ("sms_eq_ignores_flag", "src/source_map_source.rs", "      && self.remove_original_source == other.remove_original_source\n", "", {"C14": "V"}),
  ("sms_hash_includes_name", "src/source_map_source.rs", "    self.remove_original_source.hash(state);\n", "    self.remove_original_source.hash(state);\n    self.name.len().hash(state);\n", {"C14": "P2"}),
+ ("rope_bound_plus1", "src/rope.rs", "    Bound::Included(&end) => Some(end.saturating_add(1)),", "    Bound::Included(&end) => Some(end + 1),", {"C17": "V"}),
  # ---- benign ----
  ("benign_rename_local", "src/encoder.rs", "let mut digit = num & 0b11111;\n    num >>= 5;\n    if num > 0 {\n      digit |= 1 << 5;\n    }\n    out.push(B64_CHARS[digit as usize]);",
   "let mut dg = num & 0b11111;\n    num >>= 5;\n    if num > 0 {\n      dg |= 1 << 5;\n    }\n    out.push(B64_CHARS[dg as usize]);", {"C12": "P", "C17": "P"}),
